@@ -83,7 +83,25 @@ CLAIM = {
             'over C (scale-free); correspondence + oracles, every comparison relative to the input scale. R7 life '
             'cycle: theorems same_configuration_same_object / object_state_is_configuration (objects built with or '
             'without a channel, any order, repeated setters); correspondence on channel-less and repeated-setter '
-            'histories; shared channel array between two objects by oracle only.',
+            'histories; shared channel array between two objects by oracle only. R8 argument forms (applies): '
+            'constructor vs setter vs replacement and vector vs matrix layout by theorem (constructor_is_setter, '
+            'replacement_is_constructor, channel_layouts_agree, filter_default_noise_var) + correspondence (stored '
+            'channel read back, `flt;none`) + oracle; positional vs keyword, omitted vs None vs 0.0, scalar vs 0-d vs '
+            'length-1 noise variance, calc_SINRs = dB(calc_linear_SINRs), calc_post_processing_SINRs = '
+            'dB(..._linear_SINRs), calc_linear_SINRs forwarding to the module function: oracle + keyword-driven '
+            'histories in the correspondence (a keyword is not a value: nothing to state in the model). R9 index / '
+            'count arguments: does not apply (no public function of mimo.py takes an index or a count). R10 '
+            'heterogeneous collections: does not apply (no list-of-arrays / per-user arguments; mixed element types '
+            'ACROSS the arguments of one object are covered by R1). R11 (applies): theorems observation_keeps_state, '
+            'configuration_read_back; queries (getNumberOfLayers, Nr, Nt, repr, calc_*SINRs, _calc_precoder / '
+            '_calc_receive_filter, module SINR functions) inside the histories with all attributes compared before / '
+            'after, configuration read back through the model ops channel / noiseVar / layers. R12 order of '
+            'containers: does not apply (no dict / set / named containers). R13 derived objects (applies, generic '
+            'Python protocols only: copy, deepcopy, pickle of a scheme object): correspondence (the history continues '
+            'on the child; the model says a copy is the same value) + oracle (child = parent, independent both ways, '
+            'round trip of the child). R14 counts (applies): 300 receive antennas (MRC), 257 transmit antennas (MRT), '
+            '258 x 2 (Alamouti, 300 code words), 258 x 3 (Blast), in thorough also SVD / GMD 257 x 3 and a '
+            '65537-antenna MRC: correspondence (<= 300) + oracles; the theorems have no size bound.',
 }
 
 RTOL = 1e-9
@@ -550,7 +568,66 @@ def hist_ops_from_case(case):
             out.append(('rt', dec(op['x'])))
         elif k in ('flt', 'sinr'):
             out.append((k, op['v']))
+        elif k == 'cfg':
+            out.append(('cfg', None))
+        elif k == 'q':
+            out.append(('q', op['v']))
+        elif k == 'derive':
+            out.append(('derive', op['how']))
     return out
+
+
+KWNAME = {'encode': 'transmit_data', 'decode': 'received_data', 'set_noise_var': 'noise_var',
+          'set_channel_matrix': 'channel', 'calc_linear_SINRs': 'noise_var', 'calc_SINRs': 'noise_var'}
+
+
+def call_m(obj, name, arg, kw=False):
+    """one public method, its documented parameter given positionally or by keyword"""
+    return getattr(obj, name)(**{KWNAME[name]: arg}) if kw else getattr(obj, name)(arg)
+
+
+def recv_filter(obj, v, kw=False):
+    """`_calc_receive_filter(channel, noise_var=None)`; v = 'omit' leaves the default"""
+    if isinstance(v, str):
+        return obj._calc_receive_filter(channel=obj._channel) if kw else obj._calc_receive_filter(obj._channel)
+    return obj._calc_receive_filter(channel=obj._channel, noise_var=v) if kw else obj._calc_receive_filter(obj._channel, v)
+
+
+def cfg_of(obj):
+    """every attribute of the object, by value"""
+    return {k: (np.array(v) if isinstance(v, np.ndarray) else v) for k, v in vars(obj).items()}
+
+
+def cfg_diff(a, b):
+    if set(a) != set(b):
+        return 'attributes %s' % sorted(set(a) ^ set(b))
+    for k in a:
+        u, v = a[k], b[k]
+        if isinstance(u, np.ndarray) or isinstance(v, np.ndarray):
+            if not (isinstance(u, np.ndarray) and isinstance(v, np.ndarray) and u.shape == v.shape and u.dtype == v.dtype
+                    and np.array_equal(u, v)):
+                return k
+        elif not (u is v or u == v):
+            return k
+    return None
+
+
+def derive(obj, how):
+    import copy
+    import pickle
+    return {'copy': copy.copy, 'deepcopy': copy.deepcopy, 'pickle': lambda o: pickle.loads(pickle.dumps(o))}[how](obj)
+
+
+def run_queries(obj, scheme, v, kw=False):
+    """the public non-setters: none of them may change the object"""
+    call_impl(lambda: obj.getNumberOfLayers())
+    call_impl(lambda: (obj.Nr, obj.Nt))
+    call_impl(lambda: (repr(obj), str(obj)))
+    call_impl(lambda: call_m(obj, 'calc_linear_SINRs', v, kw))
+    call_impl(lambda: call_m(obj, 'calc_SINRs', v, kw))
+    call_impl(lambda: (obj._calc_precoder(obj._channel), recv_filter(obj, v, kw), recv_filter(obj, 'omit', kw)))
+    call_impl(lambda: _mimo().calc_post_processing_linear_SINRs(obj._channel, obj._calc_precoder(obj._channel),
+                                                                recv_filter(obj, v), v))
 
 
 def used_filter(obj, nr):
@@ -583,14 +660,16 @@ def accepted(scheme, Harg):
 def o_history(case):
     """a reconfigured object behaves like a freshly configured one, its decode() uses the filter defined by the
     CURRENT channel and noise variance (ZF / MMSE defining equations), and recovers noise-free data when the
-    noise variance is None / 0"""
+    noise variance is None / 0; queries (R11) never change an attribute; copies / pickles (R13) are independent of
+    and equal to their parent; methods called positionally or by keyword (R8)"""
     scheme = case['scheme']
-    m = _mimo()
+    kw = bool(case.get('kw'))
     H0 = dec(case['H0']) if case['H0'] is not None else None
     obj = make(scheme, H0)
     cur_arg, cur_nv = H0, 0.0
     last, since = ('construct' if H0 is not None else 'construct-without-channel'), set()
     fam = scheme in ('blast', 'mrc', 'svd', 'gmd')
+    parents = []   # (parent object, its attributes when the child was derived, how)
     with warnings.catch_warnings():
         warnings.simplefilter('ignore')
         for step_i, (k, a) in enumerate(hist_ops_from_case(case)):
@@ -598,10 +677,22 @@ def o_history(case):
                 last = {('c',): 'channel-only', ('n',): 'noise-only'}.get(tuple(sorted(since)), 'both')
             cls = 'history:%s:after-%s' % (scheme, last)
             where = 'step %d (%s): ' % (step_i, k)
+            if k == 'derive':
+                snap = cfg_of(obj)
+                try:
+                    child = derive(obj, a)
+                except Exception as ex:
+                    return 'R13:%s:%s' % (scheme, a), where + 'raised %s' % type(ex).__name__
+                d = cfg_diff(snap, cfg_of(child))
+                if d is not None:
+                    return 'R13:%s:%s' % (scheme, a), where + 'the %s differs from its parent in %s' % (a, d)
+                parents.append((obj, snap, a))
+                obj = child
+                continue
             if k == 'sc':
                 ok = accepted(scheme, a)
                 try:
-                    obj.set_channel_matrix(a)
+                    call_m(obj, 'set_channel_matrix', a, kw)
                     if not ok:
                         return 'history:%s:guard' % scheme, where + 'accepted a channel the scheme cannot use'
                     cur_arg = a
@@ -609,10 +700,9 @@ def o_history(case):
                 except ValueError:
                     if ok:
                         return 'history:%s:guard' % scheme, where + 'rejected a valid channel'
-                continue
-            if k == 'nv':
+            elif k == 'nv':
                 try:
-                    obj.set_noise_var(a)
+                    call_m(obj, 'set_noise_var', a, kw)
                     if not fam or (a is not None and a < 0):
                         return 'history:%s:guard' % scheme, where + 'accepted noise variance %r' % (a,)
                     cur_nv = 0.0 if a is None else a
@@ -620,76 +710,104 @@ def o_history(case):
                 except (ValueError, AttributeError):
                     if fam and (a is None or a >= 0):
                         return 'history:%s:guard' % scheme, where + 'rejected noise variance %r' % (a,)
+            if k in ('sc', 'nv'):
+                for par, snap, how in parents:   # R13: configuring the child must not reach the parent
+                    d = cfg_diff(snap, cfg_of(par))
+                    if d is not None:
+                        return 'R13:%s:%s' % (scheme, how), where + 'changed %s of the object it was derived from' % d
                 continue
-            f = fresh_like(scheme, cur_arg, cur_nv)
-            if cur_arg is None:
-                # no channel yet: the object must answer exactly like a fresh channel-less one
-                probe = {'rt': [lambda o: o.encode(a), lambda o: o.decode(np.ones((1, 2), dtype=complex))],
-                         'flt': [lambda o: (o._calc_precoder(o._channel), o._calc_receive_filter(o._channel, a))],
-                         'sinr': [lambda o: o.calc_linear_SINRs(a)]}[k]
-                for fn in probe:
-                    r1, r2 = call_impl(lambda: fn(obj)), call_impl(lambda: fn(f))
-                    if r1[0] != r2[0] or (r1[0] == 'ok' and not near(np.asarray(r1[1]), np.asarray(r2[1]))[0]):
-                        return cls, where + 'without a channel: %s, fresh object: %s' % (r1[0], r2[0])
-                since = set()
-                continue
-            H2 = as2d(scheme, cur_arg)
-            nr, nt = H2.shape
-            c = cond2(H2) if min(H2.shape) else 1.0
-            if k == 'rt':
-                x = a
-                try:
-                    e, ef = obj.encode(x), f.encode(x)
-                    y = H2 @ e
-                    d, df = np.asarray(obj.decode(y)), np.asarray(f.decode(y))
-                except Exception as ex:
-                    return cls, where + 'raised %s: %s' % (type(ex).__name__, str(ex)[:150])
-                ok, why = near(e, ef)
-                if not ok:
-                    return cls, where + 'encode differs from a fresh object: ' + why
-                sc = xscale(c, x)
-                ok, why = near(d, df, scale=sc)
-                if not ok:
-                    return cls, where + 'decode differs from a fresh object (noise_var=%r): %s' % (cur_nv, why)
-                if (not fam) or cur_nv == 0.0 or scheme == 'svd':
-                    ok, why = near(d, x, 1e-10, scale=sc)
-                    if not ok:
-                        return cls, where + 'noise-free round trip with noise_var=%r: %s' % (cur_nv, why)
-                if scheme in ('blast', 'mrc', 'gmd'):
-                    # defining equation of the filter decode() really used, for the CURRENT configuration
-                    G = used_filter(obj, nr) / math.sqrt(nt)
-                    Heq = H2 @ (np.asarray(f._calc_precoder(H2)) * math.sqrt(nt))
-                    if cur_nv > 0:
-                        A = Hm(Heq) @ Heq + cur_nv * np.eye(nt)
-                        ok, why = near(A @ G, Hm(Heq), 1e-9, scale=amax(A)
-                                       * amax(G) * nt * nt)
-                        if not ok:
-                            return cls, where + 'filter used by decode is not the MMSE filter for noise_var=%r: %s' % (cur_nv, why)
-                    else:
-                        ok, why = near(G @ Heq, np.eye(nt), 1e-10 * max(1.0, c))
-                        if not ok:
-                            return cls, where + 'filter used by decode is not the zero-forcing filter: ' + why
-            elif k == 'flt':
-                if scheme == 'alamouti':
-                    continue
-                try:
-                    W, G = obj._calc_precoder(obj._channel), obj._calc_receive_filter(obj._channel, a)
-                    Wf, Gf = f._calc_precoder(f._channel), f._calc_receive_filter(f._channel, a)
-                except Exception as ex:
-                    return cls, where + 'raised %s' % type(ex).__name__
-                for u, v, nm in ((W, Wf, 'precoder'), (G, Gf, 'filter')):
-                    ok, why = near(np.asarray(u), np.asarray(v), scale=max(1.0, c) * 4 * amax(np.asarray(v)))
-                    if not ok:
-                        return cls, where + nm + ' differs from a fresh object: ' + why
-            elif k == 'sinr':
-                try:
-                    s1, s2 = sinr_lin(scheme, obj.calc_linear_SINRs(a)), sinr_lin(scheme, f.calc_linear_SINRs(a))
-                except Exception as ex:
-                    return cls, where + 'raised %s' % type(ex).__name__
-                ok, why = near(s1, s2, 1e-7)
-                if not ok:
-                    return cls, where + 'calc_linear_SINRs differs from a fresh object: ' + why
+            before = cfg_of(obj)
+            r = _observe_step(obj, scheme, k, a, cur_arg, cur_nv, cls, where, kw)
+            if r is not None:
+                return r
+            d = cfg_diff(before, cfg_of(obj))
+            if d is not None:
+                return 'R11:%s:%s' % (scheme, k), where + 'a call that is not a setter changed %s' % d
             since = set()
+    return None
+
+
+def _observe_step(obj, scheme, k, a, cur_arg, cur_nv, cls, where, kw):
+    """one non-mutating step of a history, compared with a fresh object of the current configuration"""
+    fam = scheme in ('blast', 'mrc', 'svd', 'gmd')
+    f = fresh_like(scheme, cur_arg, cur_nv)
+    if k == 'q':
+        run_queries(obj, scheme, a, kw)
+        return None
+    if k == 'cfg':
+        for nm, g_ in (('_channel', lambda o: o._channel), ('_noise_var', lambda o: o._noise_var),
+                       ('getNumberOfLayers', lambda o: o.getNumberOfLayers()), ('Nr, Nt', lambda o: (o.Nr, o.Nt))):
+            r1, r2 = call_impl(lambda: g_(obj)), call_impl(lambda: g_(f))
+            same = r1[0] == r2[0] and (r1[0] != 'ok' or (np.shape(r1[1]) == np.shape(r2[1]) and (
+                np.array_equal(r1[1], r2[1]) if isinstance(r1[1], np.ndarray) else r1[1] == r2[1] or (r1[1] is None and r2[1] is None))))
+            if not same:
+                return cls, where + '%s reads %s, a fresh object %s' % (nm, str(r1)[:60], str(r2)[:60])
+        return None
+    if cur_arg is None:
+        # no channel yet: the object must answer exactly like a fresh channel-less one
+        probe = {'rt': [lambda o: call_m(o, 'encode', a, kw), lambda o: call_m(o, 'decode', np.ones((1, 2), dtype=complex), kw)],
+                 'flt': [lambda o: (o._calc_precoder(o._channel), recv_filter(o, 'omit' if a is None else a, kw))],
+                 'sinr': [lambda o: call_m(o, 'calc_linear_SINRs', a, kw)]}[k]
+        for fn in probe:
+            r1, r2 = call_impl(lambda: fn(obj)), call_impl(lambda: fn(f))
+            if r1[0] != r2[0] or (r1[0] == 'ok' and not near(np.asarray(r1[1]), np.asarray(r2[1]))[0]):
+                return cls, where + 'without a channel: %s, fresh object: %s' % (r1[0], r2[0])
+        return None
+    H2 = as2d(scheme, cur_arg)
+    nr, nt = H2.shape
+    c = cond2(H2) if min(H2.shape) else 1.0
+    if k == 'rt':
+        x = a
+        try:
+            e, ef = call_m(obj, 'encode', x, kw), f.encode(x)
+            y = H2 @ e
+            d, df = np.asarray(call_m(obj, 'decode', y, kw)), np.asarray(f.decode(y))
+        except Exception as ex:
+            return cls, where + 'raised %s: %s' % (type(ex).__name__, str(ex)[:150])
+        ok, why = near(e, ef)
+        if not ok:
+            return cls, where + 'encode differs from a fresh object: ' + why
+        sc = xscale(c, x)
+        ok, why = near(d, df, scale=sc)
+        if not ok:
+            return cls, where + 'decode differs from a fresh object (noise_var=%r): %s' % (cur_nv, why)
+        if (not fam) or cur_nv == 0.0 or scheme == 'svd':
+            ok, why = near(d, x, 1e-10, scale=sc)
+            if not ok:
+                return cls, where + 'noise-free round trip with noise_var=%r: %s' % (cur_nv, why)
+        if scheme in ('blast', 'mrc', 'gmd'):
+            # defining equation of the filter decode() really used, for the CURRENT configuration
+            G = used_filter(obj, nr) / math.sqrt(nt)
+            Heq = H2 @ (np.asarray(f._calc_precoder(H2)) * math.sqrt(nt))
+            if cur_nv > 0:
+                A = Hm(Heq) @ Heq + cur_nv * np.eye(nt)
+                ok, why = near(A @ G, Hm(Heq), 1e-9, scale=amax(A) * amax(G) * nt * nt)
+                if not ok:
+                    return cls, where + 'filter used by decode is not the MMSE filter for noise_var=%r: %s' % (cur_nv, why)
+            else:
+                ok, why = near(G @ Heq, np.eye(nt), 1e-10 * max(1.0, c))
+                if not ok:
+                    return cls, where + 'filter used by decode is not the zero-forcing filter: ' + why
+    elif k == 'flt':
+        if scheme == 'alamouti':
+            return None
+        try:
+            W, G = obj._calc_precoder(obj._channel), recv_filter(obj, 'omit' if a is None else a, kw)
+            Wf, Gf = f._calc_precoder(f._channel), f._calc_receive_filter(f._channel, 0.0 if a is None else a)
+        except Exception as ex:
+            return cls, where + 'raised %s' % type(ex).__name__
+        for u, v, nm in ((W, Wf, 'precoder'), (G, Gf, 'filter')):
+            ok, why = near(np.asarray(u), np.asarray(v), scale=max(1.0, c) * 4 * amax(np.asarray(v)))
+            if not ok:
+                return cls, where + nm + ' differs from a fresh object: ' + why
+    elif k == 'sinr':
+        try:
+            s1, s2 = sinr_lin(scheme, call_m(obj, 'calc_linear_SINRs', a, kw)), sinr_lin(scheme, f.calc_linear_SINRs(a))
+        except Exception as ex:
+            return cls, where + 'raised %s' % type(ex).__name__
+        ok, why = near(s1, s2, 1e-7)
+        if not ok:
+            return cls, where + 'calc_linear_SINRs differs from a fresh object: ' + why
     return None
 
 
@@ -1265,10 +1383,196 @@ def o_entry(case):
     return None
 
 
+# ---- R8 argument forms, R13 derived objects, R14 counts ---------------------------------------------------
+def same_result(r1, r2):
+    """two outcomes of call_impl: same exception kind, or bit-identical values (nan == nan)"""
+    if r1[0] != r2[0]:
+        return False
+    if r1[0] != 'ok':
+        return True
+    return same_value(r1[1], r2[1])
+
+
+def same_value(a, b_):
+    if isinstance(a, (tuple, list)):
+        return isinstance(b_, (tuple, list)) and len(a) == len(b_) and all(same_value(u, v) for u, v in zip(a, b_))
+    if a is None or b_ is None:
+        return a is None and b_ is None
+    if isinstance(a, np.ndarray) or isinstance(b_, np.ndarray) or isinstance(a, np.generic):
+        a, b_ = np.asarray(a), np.asarray(b_)
+        if a.shape != b_.shape:
+            return False
+        return bool(np.array_equal(a, b_, equal_nan=True)) if a.dtype.kind in 'fc' and b_.dtype.kind in 'fc' else bool(np.array_equal(a, b_))
+    if isinstance(a, float) and isinstance(b_, float) and a != a and b_ != b_:
+        return True
+    return a == b_
+
+
+def o_argforms(case):
+    """R8: every documented parameter positionally / by keyword / at its default / as the explicit default; noise
+    variance as scalar, 0-d and length-1 array; wrappers documented as equivalent agree"""
+    scheme = case['scheme']
+    H, x, nv = dec(case['H']), dec(case['x']), case['nv']
+    fam = scheme in ('blast', 'mrc', 'svd', 'gmd')
+    m = _mimo()
+    klass = type(make(scheme, H))
+    H2 = as2d(scheme, H)
+    lin2db = lambda v: 10.0 * np.log10(v)
+
+    def conf(o):
+        if fam:
+            o.set_noise_var(nv)
+        return o
+    pairs = []   # (entry point, form, thunk A, thunk B)  -- both must give the same outcome
+
+    def obs(o):
+        e = o.encode(x)
+        return (np.asarray(e), np.asarray(o.decode(H2 @ e)), cfg_of(o).get('_noise_var'), np.array(o._channel))
+    pairs.append(('constructor', 'channel=', lambda: obs(conf(klass(H))), lambda: obs(conf(klass(channel=H)))))
+    pairs.append(('constructor', 'default-vs-None', lambda: sorted(cfg_of(klass()).items(), key=str), lambda: sorted(cfg_of(klass(None)).items(), key=str)))
+    pairs.append(('constructor', 'channel=None', lambda: sorted(cfg_of(klass()).items(), key=str), lambda: sorted(cfg_of(klass(channel=None)).items(), key=str)))
+
+    def via_setter(kw_):
+        o = klass()
+        if kw_:
+            o.set_channel_matrix(channel=H)
+        else:
+            o.set_channel_matrix(H)
+        return obs(conf(o))
+    pairs.append(('set_channel_matrix', 'channel=', lambda: via_setter(False), lambda: via_setter(True)))
+    pairs.append(('set_channel_matrix', 'vs-constructor', lambda: via_setter(False), lambda: obs(conf(klass(H)))))
+    o1, o2 = conf(klass(H)), conf(klass(H))
+    e = np.asarray(o1.encode(x))
+    y = H2 @ e
+    pairs.append(('encode', 'transmit_data=', lambda: o1.encode(x), lambda: o2.encode(transmit_data=x)))
+    pairs.append(('decode', 'received_data=', lambda: o1.decode(y), lambda: o2.decode(received_data=y)))
+    vq = 0.3 * amax(H) ** 2
+    pairs.append(('calc_linear_SINRs', 'noise_var=', lambda: o1.calc_linear_SINRs(vq), lambda: o2.calc_linear_SINRs(noise_var=vq)))
+    pairs.append(('calc_SINRs', 'noise_var=', lambda: o1.calc_SINRs(vq), lambda: o2.calc_SINRs(noise_var=vq)))
+    pairs.append(('calc_SINRs', 'is-dB-of-calc_linear_SINRs', lambda: o1.calc_SINRs(vq), lambda: lin2db(o2.calc_linear_SINRs(vq))))
+    if fam:
+        for form, mk in (('noise_var=', None), ('0-d array', lambda v: np.array(v)), ('length-1 array', lambda v: np.array([v])),
+                         ('python int', None)):
+            v = nv
+            if form == 'python int':
+                v = 2
+            a_, b_ = klass(H), klass(H)
+
+            def fa(a_=a_, v=v):
+                a_.set_noise_var(v)
+                return np.asarray(a_.decode(y))
+
+            def fb(b_=b_, v=v, mk=mk, form=form):
+                if form == 'noise_var=':
+                    b_.set_noise_var(noise_var=v)
+                elif form == 'python int':
+                    b_.set_noise_var(float(v))
+                else:
+                    b_.set_noise_var(mk(v))
+                return np.asarray(b_.decode(y))
+            pairs.append(('set_noise_var', form, fa, fb))
+        a_, b_ = klass(H), klass(H)
+
+        def f_none_a():
+            a_.set_noise_var(0.5 * vq)
+            a_.set_noise_var(None)
+            return np.asarray(a_.decode(y))
+
+        def f_none_b():
+            b_.set_noise_var(0.5 * vq)
+            b_.set_noise_var(noise_var=0.0)
+            return np.asarray(b_.decode(y))
+        pairs.append(('set_noise_var', 'None-vs-0.0', f_none_a, f_none_b))
+    if scheme != 'alamouti':
+        ch = o1._channel
+        pairs.append(('_calc_receive_filter', 'omitted-vs-None', lambda: klass._calc_receive_filter(ch), lambda: klass._calc_receive_filter(ch, None)))
+        pairs.append(('_calc_receive_filter', 'omitted-vs-noise_var=None', lambda: klass._calc_receive_filter(ch),
+                      lambda: klass._calc_receive_filter(channel=ch, noise_var=None)))
+        pairs.append(('_calc_receive_filter', 'None-vs-0.0', lambda: klass._calc_receive_filter(ch, None), lambda: klass._calc_receive_filter(ch, 0.0)))
+        pairs.append(('_calc_receive_filter', 'keywords', lambda: klass._calc_receive_filter(ch, vq),
+                      lambda: klass._calc_receive_filter(noise_var=vq, channel=ch)))
+        pairs.append(('_calc_precoder', 'channel=', lambda: klass._calc_precoder(ch), lambda: klass._calc_precoder(channel=ch)))
+        W, G = klass._calc_precoder(ch), klass._calc_receive_filter(ch, vq)
+        pairs.append(('calc_post_processing_SINRs', 'keywords', lambda: m.calc_post_processing_SINRs(ch, W, G, vq),
+                      lambda: m.calc_post_processing_SINRs(noise_var=vq, G_H=G, W=W, channel=ch)))
+        pairs.append(('calc_post_processing_SINRs', 'is-dB-of-linear', lambda: m.calc_post_processing_SINRs(ch, W, G, vq),
+                      lambda: lin2db(m.calc_post_processing_linear_SINRs(ch, W, G, vq))))
+        pairs.append(('calc_post_processing_linear_SINRs', 'keywords', lambda: m.calc_post_processing_linear_SINRs(ch, W, G, vq),
+                      lambda: m.calc_post_processing_linear_SINRs(channel=ch, W=W, G_H=G, noise_var=vq)))
+        pairs.append(('calc_linear_SINRs', 'forwards-to-module-function', lambda: o1.calc_linear_SINRs(vq),
+                      lambda: m.calc_post_processing_SINRs(ch, W, G, vq)))
+    with warnings.catch_warnings():
+        warnings.simplefilter('ignore')
+        for ep, form, fa, fb in pairs:
+            r1, r2 = call_impl(fa), call_impl(fb)
+            if not same_result(r1, r2):
+                return 'R8:%s:%s:%s' % (scheme, ep, form), 'the two argument forms disagree: %s vs %s' % (str(r1)[:110], str(r2)[:110])
+            if r1[0] != 'ok' and not (ep == 'constructor'):
+                return 'R8:%s:%s:%s' % (scheme, ep, form), 'both forms raised %s' % r1[0]
+    return None
+
+
+def o_derived(case):
+    """R13: a copy / deep copy / pickle of a configured object equals its parent and is independent of it, in both
+    directions (child reconfigured: parent unchanged; parent reconfigured: child unchanged); a round trip of the
+    child gives back the child"""
+    scheme, how = case['scheme'], case['how']
+    H, x, nv = dec(case['H']), dec(case['x']), case['nv']
+    Hn = dec(case['Hn'])
+    fam = scheme in ('blast', 'mrc', 'svd', 'gmd')
+    cls = 'R13:%s:%s' % (scheme, how)
+    with warnings.catch_warnings():
+        warnings.simplefilter('ignore')
+        try:
+            par = make(scheme, np.array(H))
+            if fam:
+                par.set_noise_var(nv)
+            ref = state_of(par, scheme, x)
+            child = derive(par, how)
+            k = same_state(ref, state_of(child, scheme, x))
+            if k is not None:
+                return cls, 'the child differs from its parent in %s' % k
+            if fam:
+                child.set_noise_var(0.5 * nv if nv else 0.3 * amax(H) ** 2)
+            child.set_channel_matrix(np.array(Hn))
+            k = same_state(ref, state_of(par, scheme, x))
+            if k is not None:
+                return cls, 'reconfiguring the child changed %s of the parent' % k
+            cref = state_of(child, scheme, dec(case['xn']))
+            again = derive(child, how)
+            k = same_state(cref, state_of(again, scheme, dec(case['xn'])))
+            if k is not None:
+                return cls, 'a round trip of the child gives back something that differs in %s' % k
+            if fam:
+                par.set_noise_var(None)
+            par.set_channel_matrix(np.array(H) * 2.0)
+            k = same_state(cref, state_of(child, scheme, dec(case['xn'])))
+            if k is not None:
+                return cls, 'reconfiguring the parent changed %s of the child' % k
+        except Exception as ex:
+            return cls, 'raised %s: %s' % (type(ex).__name__, str(ex)[:150])
+    return None
+
+
+def o_counts(case):
+    """R14: antenna / symbol COUNTS of 257, 258, 300: round trip, energy and every entry point as for small sizes"""
+    scheme = case['scheme']
+    cls = 'R14:%s:%s' % (scheme, 'x'.join(str(d) for d in case['H']['shape']) + ',n=%d' % case['x']['shape'][0])
+    sub = {'scheme': scheme, 'H': case['H'], 'x': case['x']}
+    H2 = as2d(scheme, dec(case['H']))
+    r = o_roundtrip(sub) or o_energy(sub)
+    if r is None:
+        lay = 'vector' if dec(case['H']).ndim == 1 else 'matrix'
+        for path in ('ctor', 'setter'):
+            r = r or o_entry({'scheme': scheme, 'path': path, 'layout': lay, 'H': enc(H2), 'x': case['x'], 'nv': case.get('nv', 0.0), 'other': None})
+    return relabel(r, cls)
+
+
 ORACLES = {'roundtrip': o_roundtrip, 'energy': o_energy, 'zf': o_zf, 'mmse': o_mmse, 'mmse-limit': o_mmse_limit,
            'guard': o_reject, 'gmd': o_gmd, 'history': o_history, 'sweep': o_sweep,
            'dtype': o_dtype, 'layout': o_layout, 'immutable': o_immutable, 'rejected': o_rejected,
-           'boundary': o_boundary, 'scale': o_scale, 'lifecycle': o_lifecycle, 'entry': o_entry}
+           'boundary': o_boundary, 'scale': o_scale, 'lifecycle': o_lifecycle, 'entry': o_entry,
+           'argforms': o_argforms, 'derived': o_derived, 'counts': o_counts}
 
 
 def run_oracle(ctx, call, case, key=None, nontrivial=True):
@@ -1708,6 +2012,8 @@ def parse_out(o):
         return o, None
     if t[0] == 'done':
         return 'done', None
+    if t[0] == 'nat':
+        return o, None
     if t[0] == 'mat':
         return 'mat', [parse_c(t[3], (int(t[1]), int(t[2])))]
     if t[0] == 'vec':
@@ -1731,6 +2037,18 @@ def corr_history(ctx, b, case, ck):
         b.add('hist %s %s' % (scheme, chan_tok(H0)), lambda o: ctx.corr('history.construct', case, st, o, key=ck + ('c',)))
         return
     fam = scheme in ('blast', 'mrc', 'svd', 'gmd')
+    kw = bool(case.get('kw'))
+    if kw:
+        ctx.branch('R8:corr')
+
+    def read_config():
+        """`_noise_var` and `getNumberOfLayers()` read back (model ops `noiseVar`, `layers`)"""
+        st_, v_ = call_impl(lambda: obj._noise_var)
+        toks.append('nvq')
+        impl.append(('noise_var', st_, None if st_ != 'ok' else np.array([v_], dtype=complex), None))
+        st_, v_ = call_impl(lambda: obj.getNumberOfLayers())
+        toks.append('layers')
+        impl.append(('layers', st_ if st_ != 'ok' else 'nat:%d' % v_, None, None))
 
     def read_channel():
         """the stored `_channel` (the model keeps it 2-D whichever way / layout it came in)"""
@@ -1740,8 +2058,29 @@ def corr_history(ctx, b, case, ck):
         ctx.branch('hist-op:chan')
     read_channel()
     for k, a in hist_ops_from_case(case):
+        if k == 'derive':      # a copy / pickle is the same VALUE: nothing happens on the model side
+            st, child = call_impl(lambda: derive(obj, a))
+            if st != 'ok':
+                ctx.corr('history.derive.' + a, case, st, 'ok', key=ck + ('derive', len(toks)))
+                return
+            obj = child
+            ctx.branch('R13:corr')
+            read_channel()
+            read_config()
+            continue
+        if k == 'q':           # queries: no model step either; the configuration read back must be untouched
+            run_queries(obj, scheme, a, kw)
+            read_channel()
+            read_config()
+            ctx.branch('R11:corr')
+            continue
+        if k == 'cfg':
+            read_channel()
+            read_config()
+            ctx.branch('hist-op:cfg')
+            continue
         if k == 'sc':
-            st, _ = call_impl(lambda: obj.set_channel_matrix(a))
+            st, _ = call_impl(lambda: call_m(obj, 'set_channel_matrix', a, kw))
             toks.append('sc;' + chan_tok(a))
             impl.append(('set_channel', 'done' if st == 'ok' else st, None, None))
             read_channel()
@@ -1750,7 +2089,7 @@ def corr_history(ctx, b, case, ck):
                 ctx.branch('R4:corr')
             continue
         if k == 'nv':
-            st, _ = call_impl(lambda: obj.set_noise_var(a))
+            st, _ = call_impl(lambda: call_m(obj, 'set_noise_var', a, kw))
             toks.append('nv;' + ('none' if a is None else cline([a])))
             impl.append(('set_noise_var', 'done' if st == 'ok' else st, None, None))
             ctx.branch('hist-op:set_noise_var:' + ('ok' if st == 'ok' else 'rejected'))
@@ -1763,18 +2102,18 @@ def corr_history(ctx, b, case, ck):
         steps = []
         if k == 'rt':
             with Tap() as t:
-                e = call_impl(lambda: obj.encode(a))
+                e = call_impl(lambda: call_m(obj, 'encode', a, kw))
             steps.append(('enc', t.log, e, 'enc;%d;%s' % (a.size, cline(a)), None, e[0] == 'ok', None))
             if e[0] == 'ok':
                 y = H2 @ e[1] if H2 is not None else np.ones((1, e[1].shape[1]), dtype=complex)
                 with Tap() as t:
-                    d = call_impl(lambda: obj.decode(y))
+                    d = call_impl(lambda: call_m(obj, 'decode', y, kw))
                 steps.append(('dec', t.log, d, 'dec;%d;%d;%s' % (y.shape[0], y.shape[1], cline(y)), nv_obj, True, xscale(c, a)))
         elif k == 'flt':
             with Tap() as t:
                 r = call_impl(lambda: (np.asarray(obj._calc_precoder(obj._channel)),
-                                       np.atleast_2d(np.asarray(obj._calc_receive_filter(obj._channel, a)))))
-            steps.append(('flt', t.log, r, 'flt;' + cline([a]), a, True, None))
+                                       np.atleast_2d(np.asarray(recv_filter(obj, 'omit' if a is None else a, kw)))))
+            steps.append(('flt', t.log, r, 'flt;' + ('none' if a is None else cline([a])), a, True, None))
         else:
             def f_sinr():
                 if scheme == 'alamouti':
@@ -1804,6 +2143,9 @@ def corr_history(ctx, b, case, ck):
             tag, arrs = parse_out(mo)
             name = 'history.%s.%s' % (scheme, kind)
             key = ck + (i,)
+            if kind == 'layers':
+                ctx.corr(name, case, st, mo, key=key)
+                continue
             if st != 'ok' and st != 'done' or arrs is None:
                 ctx.corr(name, case, st if st != 'ok' else 'value', tag if arrs is None else 'value', key=key)
                 continue
@@ -1884,6 +2226,14 @@ def gen_history(rng, g, scheme, max_n, n_reconf=None, late=None):
         if rng.chance(0.4):
             out.append({'op': 'sinr', 'v': 10.0 ** rng.uniform(-4, 1) * sc2})
         rng.shuffle(out)
+        if rng.chance(0.35):   # R11: queries between the mutators, then read the configuration back
+            out.insert(rng.below(len(out) + 1), {'op': 'q', 'v': 10.0 ** rng.uniform(-3, 0) * sc2})
+        if rng.chance(0.35):
+            out.append({'op': 'cfg'})
+        if rng.chance(0.2):    # R8: the noise variance argument of the receive filter left at its default
+            out.append({'op': 'flt', 'v': None})
+        if rng.chance(0.12):   # R13: go on with a copy / a pickle of the object
+            out.append({'op': 'derive', 'how': rng.choice(['copy', 'deepcopy', 'pickle'])})
         return out
     ops += observe()
     for _ in range(n_reconf or rng.randint(2, 6)):
@@ -1901,7 +2251,7 @@ def gen_history(rng, g, scheme, max_n, n_reconf=None, late=None):
             if rng.chance(0.15):  # the same setter call repeated
                 ops.append(dict(op))
         ops += observe()
-    return {'scheme': scheme, 'H0': enc(H0) if H0 is not None else None, 'ops': ops}
+    return {'scheme': scheme, 'H0': enc(H0) if H0 is not None else None, 'ops': ops, 'kw': rng.chance(0.3)}
 
 
 SCHEMES = ('blast', 'mrc', 'mrt', 'svd', 'gmd', 'alamouti')
@@ -1919,6 +2269,8 @@ def histories(ctx, g, reps, max_n):
             case = gen_history(rng, g, scheme, max_n)
             corr_history(ctx, b, case, ('hist', idx))
             run_oracle(ctx, 'history', case, key=('hist-o', idx))
+            if any(op['op'] == 'q' for op in case['ops']):
+                ctx.branch('R11:oracle')
         for scheme in ('blast', 'mrc', 'gmd'):
             idx += 1
             nt = 1 if scheme == 'mrc' else rng.randint(1, max_n)
@@ -2216,6 +2568,64 @@ def entry_paths(ctx, g, reps, max_n):
     b.flush()
 
 
+def robustness2(ctx, g, reps, max_n):
+    """R8 argument forms, R13 derived objects, R14 counts (R11 queries run inside every history)"""
+    rng = ctx.rng
+    drv = core.Driver(DRIVER)
+    b = Batch(drv, ctx)
+    idx = 0
+    for rep in range(reps):
+        for scheme in SCHEMES:
+            idx += 1
+            fam = scheme in ('blast', 'mrc', 'svd', 'gmd')
+            nr, nt = scheme_shape(rng, scheme, max_n)
+            H = squeeze_arg(scheme, g.channel(nr, nt)[0]) if scheme != 'alamouti' else g.channel(max(nr, 2), 2)[0][:nr, :] + 0.1
+            if scheme in ('mrc', 'mrt') and rng.chance(0.5):
+                H = as2d(scheme, H)
+            x = g.data(n_symbols(rng, scheme, as2d(scheme, H).shape[1]))[0]
+            nv = 10.0 ** rng.uniform(-3, 0) * amax(H) ** 2
+            run_oracle(ctx, 'argforms', {'scheme': scheme, 'H': enc(H), 'x': enc(x), 'nv': nv}, key=('R8', idx))
+            ctx.branch('R8:oracle')
+            # R8 correspondence: the whole life cycle driven through keywords
+            hist = gen_history(rng, g, scheme, max_n)
+            hist['kw'] = True
+            corr_history(ctx, b, hist, ('R8c', idx))
+            run_oracle(ctx, 'history', hist, key=('R8h', idx))
+            # R13
+            nr2, nt2 = scheme_shape(rng, scheme, max_n)
+            Hn = squeeze_arg(scheme, g.channel(nr2, nt2)[0]) if scheme != 'alamouti' else g.channel(max(nr2, 2), 2)[0][:nr2, :] + 0.1
+            xn = g.data(n_symbols(rng, scheme, as2d(scheme, Hn).shape[1]))[0]
+            how = rng.choice(['copy', 'deepcopy', 'pickle'])
+            run_oracle(ctx, 'derived', {'scheme': scheme, 'how': how, 'H': enc(H), 'x': enc(x), 'nv': nv if fam else 0.0,
+                                        'Hn': enc(Hn), 'xn': enc(xn)}, key=('R13', idx))
+            ctx.branch('R13:oracle')
+    # R14: one large count per scheme family per run (a few more in thorough)
+    big = [('mrc', 300), ('mrt', 257), ('alamouti', 258), ('blast', 258)]
+    if ctx.tier != 'quick':
+        big += [('svd', 257), ('gmd', 257), ('mrc', 65537), ('mrt', 300), ('blast', 300)]
+    for scheme, cnt in big:
+        idx += 1
+        if scheme == 'mrc':
+            H = g.raw(cnt, 1).reshape(-1)
+            x = g.data(257)[0]
+        elif scheme == 'mrt':
+            H = g.raw(1, cnt).reshape(-1)
+            x = g.data(258)[0]
+        elif scheme == 'alamouti':
+            H = g.raw(cnt, 2)
+            x = g.data(2 * 300)[0]
+        else:
+            H = g.raw(cnt, 3)
+            x = g.data(3 * 257)[0]
+        case = {'scheme': scheme, 'H': enc(H), 'x': enc(x), 'nv': 0.0}
+        run_oracle(ctx, 'counts', case, key=('R14', idx))
+        ctx.branch('R14:oracle')
+        if cnt <= 300:
+            corr_variant(ctx, b, scheme, H, x, 0.0, ('R14c', idx))
+            ctx.branch('R14:corr')
+    b.flush()
+
+
 def shapes(max_n):
     return [(nr, nt) for nt in range(1, max_n + 1) for nr in range(nt, max_n + 1)]
 
@@ -2407,6 +2817,7 @@ def check(ctx):
     ctx.required_branches = ['corr:blast:zf', 'corr:blast:mmse', 'corr:mrc:zf', 'corr:mrt', 'corr:svd:square',
                              'corr:svd:tall', 'corr:gmd:zf', 'corr:gmd:mmse', 'corr:alamouti', 'guard:error',
                              'guard:ok', 'hist:blast', 'hist:mrc', 'hist:mrt', 'hist:svd', 'hist:gmd', 'hist:alamouti',
+                             'R8:oracle', 'R8:corr', 'R11:oracle', 'R11:corr', 'R13:oracle', 'R13:corr', 'R14:oracle', 'R14:corr',
                              'entry:oracle', 'entry:corr', 'entry:ctor:vector', 'entry:setter:vector', 'entry:replace:vector',
                              'entry:ctor:matrix', 'hist-op:chan', 'R1:oracle', 'R1:corr', 'R2:oracle', 'R2:corr', 'R3:oracle', 'R3:corr', 'R4:oracle', 'R4:corr',
                              'R5:oracle', 'R5:corr', 'R6:oracle', 'R6:corr', 'R7:oracle', 'R7:corr', 'hist-op:set_noise_var:ok', 'hist-op:set_channel:ok', 'hist-op:set_channel:rejected', 'hist-op:dec',
@@ -2416,6 +2827,7 @@ def check(ctx):
                 ('correspondence', lambda: correspondence(ctx, g, 15 if quick else 150, max_n)),
                 ('histories', lambda: histories(ctx, Gen(ctx.rng.fork('hist')), 25 if quick else 100, max_n)),
                 ('robustness', lambda: robustness(ctx, Gen(ctx.rng.fork('robust')), 12 if quick else 70, max_n)),
+                ('robustness2', lambda: robustness2(ctx, Gen(ctx.rng.fork('robust2')), 4 if quick else 40, max_n)),
                 ('oracle_cases', lambda: oracle_cases(ctx, Gen(ctx.rng.fork('oracle')), 10 if quick else 100, max_n))]
     for name, fn in sections:
         try:
